@@ -184,7 +184,16 @@ def wf_relaxed(base, dd):
     already empty list is cleared) is tolerated: the property statement does not forbid it"""
     from contracts import specs
     dd2 = [e for e in dd if not (e.get('op') == 'removerange' and e.get('length') == 0)]
-    return specs.wf_deep(base, dd2) if dd2 else True
+    # several insertions at one position (bundled from several decisions) are ordered by position and do not overlap: the
+    # statement does not forbid them; they are joined before the canonical-form check
+    dd3 = []
+    for e in dd2:
+        if dd3 and e.get('op') == 'addrange' and dd3[-1].get('op') == 'addrange' and dd3[-1].get('key') == e.get('key') \
+                and isinstance(e.get('valuelist'), type(dd3[-1].get('valuelist'))):
+            dd3[-1] = dict(dd3[-1], valuelist=dd3[-1]['valuelist'] + e['valuelist'])
+        else:
+            dd3.append(e)
+    return specs.wf_deep(base, dd3) if dd3 else True
 
 
 def _retyped_cells(inputs):
@@ -239,6 +248,13 @@ def classify_invalid(merged, err, inputs=None):
                 or (None in ids and cell.get('source') in sources):
             return 'retype-key'
         return 'code-keys-misplaced'
+    m = re.search(r"^'output_type' is a required property at /cells/(\d+)/outputs/(\d+)$", err)
+    if m:
+        try:
+            if merged['cells'][int(m.group(1))]['outputs'][int(m.group(2))] == {}:
+                return 'cleared-output'         # the recorded finding: a 'clear' decision pushed up to the outputs list
+        except (KeyError, IndexError):
+            pass
     return 'other:' + re.sub(r"'[^']*'", "'..'", err)[:60]
 
 
